@@ -175,6 +175,18 @@ theorem prune_limit_values (used : Nat) (p : Nat) (hp : 100 ≤ p) :
   · simp [maxUnusedLimit, hp]
   · simp [maxUnusedLimit]
 
+/-- What the computed limits mean (tied value by value to the limits `decide_repack` computes, channel `limits`):
+below 100 %, an amount of unused data is within `max_unused` exactly when it is at most `p` % of the repository
+size after pruning (`used + unused`), and `x` bytes are within `max_repack` exactly when they are at most `p` % of
+the total size — whenever the products fit u64; when they saturate the limit only gets tighter. -/
+theorem prune_limit_percent_meaning (p used total x : Nat) :
+    (p < 100 → p * used ≤ u64Max →
+      (x ≤ maxUnusedLimit false (.percentage p) used ↔ 100 * x ≤ p * (used + x))) ∧
+    (p < 100 → x ≤ maxUnusedLimit false (.percentage p) used → 100 * x ≤ p * (used + x)) ∧
+    (p * total ≤ u64Max → (x ≤ maxRepackLimit (.percentage p) total ↔ 100 * x ≤ p * total)) :=
+  ⟨fun hp hf => maxUnusedLimit_pct_meaning hp hf, fun hp h => maxUnusedLimit_pct_sound hp h,
+   fun hf => maxRepackLimit_pct_meaning hf⟩
+
 /-- The size comparisons of `is_too_small` / `is_too_large` (`u64::from(size) * 100` against
 `u64::from(target) * u64::from(percent)`) cannot overflow u64 for u32 operands. -/
 theorem size_ok_products_fit (size target pct : Nat) (h1 : size ≤ u32Max) (h2 : target ≤ u32Max) (h3 : pct ≤ u32Max) :
@@ -240,10 +252,14 @@ def exOpts : ConfigOptions := { setChunkSize := some 4096, setChunkMinSize := so
 
 example : apply exOpts exCfg = .ok { exCfg with chunkSize := some 4096, chunkMinSize := some 1, treepackGrowfactor := some 3 } := by
   decide
+/-- huge sizes are accepted (the smoke runs back up, check and restore with them: seeded change C18-2) -/
+example : (apply { setChunkSize := some (2 ^ 63), setChunkMinSize := some (2 ^ 63), setChunkMaxSize := some u64Max } exCfg).isOk = true
+    ∧ (apply { setChunker := some .fixedSize, setChunkSize := some u64Max } exCfg).isOk = true := by decide
 example : apply { setVersion := some 1 } exCfg = .error (.err .unsupported) := by decide
 example : apply { setChunkMinSize := some 0 } exCfg = .error (.err .unsupported) := by decide
 example : (applyConfig ⟨exCfg, 1⟩ exOpts).2 = .ok true := by decide
 example : (applyConfig ⟨exCfg, 1⟩ { setMinPackPct := some 101 }) = (⟨exCfg, 1⟩, .error (.err .invalidInput)) := by decide
 example : maxUnusedLimit false (.percentage 5) 1900 = 100 := by decide
+example : maxRepackLimit (.percentage 10) 12345 = 1234 ∧ maxRepackLimit (.percentage u64Max) 2 = u64Max / 100 := by decide
 
 end Rustic.Props.C18
